@@ -221,26 +221,26 @@ def applyOp (A : AOps R) (op : POp) (args : List (Tensor R)) : Option (Tensor R)
 
 /-- Evaluate under a valuation of the tensor leaves. Errors: `unbound uid`, `bad shape`,
     `unsupported <op>` (operator not exact in this value domain). -/
-def eval (A : AOps R) (θ : Nat → Option (Array R)) : PExpr R → Except String (Tensor R)
+def eval (A : AOps R) (θ : Nat → Option (Array R)) (pre : R → R := id) : PExpr R → Except String (Tensor R)
   | tensor uid shape | ref uid shape =>
       match θ uid with
-      | some d => if d.size = shapeSize shape then .ok { shape := shape, data := d }
+      | some d => if d.size = shapeSize shape then .ok { shape := shape, data := d.map pre }
                   else .error s!"bad size for tensor {uid}"
       | none => .error s!"unbound tensor {uid}"
   | const shape vals =>
-      if vals.size = shapeSize shape then .ok { shape := shape, data := vals }
+      if vals.size = shapeSize shape then .ok { shape := shape, data := vals.map pre }
       else .error "bad size for constant"
   | app op args => do
-      let vs ← evalList A θ args
+      let vs ← evalList A θ pre args
       match applyOp A op vs with
       | some t => .ok t
       | none => .error s!"unsupported {repr op}"
 where
-  evalList (A : AOps R) (θ : Nat → Option (Array R)) : List (PExpr R) → Except String (List (Tensor R))
+  evalList (A : AOps R) (θ : Nat → Option (Array R)) (pre : R → R) : List (PExpr R) → Except String (List (Tensor R))
   | [] => .ok []
   | e :: es => do
-      let v ← eval A θ e
-      let vs ← evalList A θ es
+      let v ← eval A θ pre e
+      let vs ← evalList A θ pre es
       .ok (v :: vs)
 
 /-- symbolic shape of a parameter graph -/
